@@ -386,6 +386,10 @@ func rulesC09(c *Ctx) {
 	c12AnyOf(c)
 	c12Unwrap(c)
 	c12Builders(c)
+	// "the winning attempt has not [been cancelled]", wherever the hedge sits: a Timeout around it cancels only from the
+	// timer callback that won the race, never on the path that returns the inner result
+	c.Rule("enclosing-timeout")
+	c07Race(c)
 }
 
 func c09Loop(c *Ctx) {
@@ -624,6 +628,13 @@ func c09Loop(c *Ctx) {
 				bad = true
 				break
 			}
+			// … before anything is done for a further attempt: CopyForHedge counts a hedge (attempts+1, hedges+1), so a
+			// copy made before the test counts a hedge that a cancelled execution never starts
+			for _, e := range after {
+				if e.Idx > sel.Idx && e.Idx < canc.Idx && (isCall(e, "CopyForHedge") || isCall(e, "CopyForCancellable")) {
+					fail(p, e, "the next attempt's execution is copied (and counted) before the cancellation test that follows the wait: a hedge that is never started would be counted")
+				}
+			}
 			cv := p.State.Facts.Truth(ts, canc.Res[0])
 			last := k+1 == len(gos)
 			if cv == triT {
@@ -690,6 +701,11 @@ func c09Loop(c *Ctx) {
 		if resultChan == nil {
 			ok = false
 			c.Undecided(name, pos, "result channel not identified", "")
+		} else if id, err := strconv.Atoi(resultChan.Aux); err != nil || id <= ee.FreshAtCall {
+			// one slot serves one call: a channel made by Apply is shared by every call of the returned function (each
+			// round of an enclosing retry), and a slow attempt of an earlier round fills the slot of a later one
+			ok = false
+			c.Fail(name, pos, "the result channel must be made by each call of the returned function, not once by Apply: rounds of an enclosing retry would share its single slot and late attempts of an earlier round block for ever", "")
 		} else if n, isC := resultChan.Args[0].IsConstInt(); !isC || n < 1 {
 			ok = false
 			c.Fail(name, pos, "the result channel must be buffered (capacity ≥ 1): the single accepted send must never block the attempt goroutine", "")
